@@ -136,4 +136,6 @@
   (when (= :error (parser/status p))
     (file/write out (string i "\tFATAL\tparse error in items: " (parser/error p) "\n")))
   (file/write out "DONE\n")
-  (file/close out))
+  (file/close out)
+  # a fiber blocked for ever keeps the loop alive (specified behaviour): leave explicitly
+  (unless (os/getenv "VERIF_BATCH_NOEXIT") (os/exit 0)))
